@@ -36,6 +36,10 @@ Pool ==
          ArrOpenRep(<<>>, I1), ArrOpenRep(<<I1>>, I1), ArrOpenRep(<<Tok(DecDyadic(1, 1), <<FV(1, 1)>>)>>, I1), ArrOpenRep(<<>>, TrueT), ArrOpenRep(<<TrueT>>, TrueT),
          ArrOpenRep(<<TrueT, FalseT>>, FalseT), ArrOpenRep(<<>>, StrA), ArrOpenRep(<<StrA>>, StrA), ArrOpenRep(<<NilT>>, NilT), ArrOpenRep(<<I1, I1>>, I1),
          ArrOpenAny(<<TrueT>>, FalseT), ArrOpenAny(<<FalseT>>, TrueT) } \cup DoubleMixToks \cup {
+         \* two ranges in one array: the second one's step comes from the LAST value of the first ("[1 ... 3 5 ... 9]" = 1 2 3 5 7 9, as at top level)
+         Tok(<<91>> \o Dec(1) \o <<32, 46, 46, 46, 32>> \o Dec(3) \o <<32>> \o Dec(5) \o <<32, 46, 46, 46, 32>> \o Dec(9) \o <<93>>, << [t |-> "a", el |-> <<IV(1), IV(2), IV(3), IV(5), IV(7), IV(9)>>] >>),
+         Tok(<<91>> \o Dec(0) \o <<32>> \o Dec(1) \o <<32, 46, 46, 46, 32>> \o Dec(3) \o <<32>> \o Dec(5) \o <<32, 46, 46, 46, 32>> \o Dec(11) \o <<93>>, << [t |-> "a", el |-> <<IV(0), IV(1), IV(2), IV(3), IV(5), IV(7), IV(9), IV(11)>>] >>),
+         PlainRun(3, 1, 5), PlainRun(1, 1, 6), PlainRun(10, 0 - 2, 5), PlainRun(0 - 2, 1, 5), PlainRun(7, 0, 5),
          Tok(Dec(9), <<IV(9)>>), Tok(<<34, 122, 34>>, <<[t |-> "s", v |-> <<122>>]>>), Tok(DecDyadic(1, 1), <<FV(1, 1)>>) }
 Init == toks = <<>> /\ seps = <<>> /\ trail \in Trailers
 Next == /\ Len(toks) < MaxTokens
